@@ -36,8 +36,19 @@ class Sys:
         self.devs: list[Any] = []
         self.used: list[set[str]] = []
         self.log: list[int] = []
+        built: dict[int, tuple[Any, set[str]]] = {}
         for i, (cn, off, stride, as_list) in enumerate(specs):
-            d, used = S.build(self.xknx, cn, f"D{i}", POOL, off, stride, as_list, with_mode=True)
+            if cn != "@mode":
+                built[i] = S.build(self.xknx, cn, f"D{i}", POOL, off, stride, as_list, with_mode=True)
+        for i, (cn, off, stride, as_list) in enumerate(specs):
+            if cn == "@mode":
+                # the ClimateMode object of device D<off>, registered as a device of its own (as Home Assistant does);
+                # its assigned addresses are recomputed with the parameters devspace.build used for it
+                owner = specs[off]
+                _, used = S.build(self.xknx, "ClimateMode", f"D{off}-mode-ref", POOL, owner[1] + 1, owner[2])
+                built[i] = (built[off][0].mode, used)
+        for i in range(len(specs)):
+            d, used = built[i]
 
             def rec(t: Telegram, _i: int = i) -> None:
                 self.log.append(_i)
@@ -184,6 +195,11 @@ def pools(thorough: bool, seed: int) -> list[tuple[tuple[tuple[Any, ...], ...], 
     # the same class several times on the same addresses, and on shifted addresses
     for c in classes:
         out.append((((c, 0, 1, False), (c, 0, 1, False), (c, 1, 1, False)), False))
+    # a Climate and its own ClimateMode both registered, next to every other class; strides 5/7/9 leave the mode with
+    # addresses the Climate's own parameters do not use
+    for j, c in enumerate(classes):
+        out.append(((("Climate", j % 4, 7 if j % 3 else 5, False), ("@mode", 0, 0, False), (c, (j + 1) % 4, 1, False)), j % 2 == 0))
+        out.append((((c, (j + 1) % 4, 1, False), ("@mode", 2, 0, False), ("Climate", j % 4, 9 if j % 2 else 7, False)), j % 2 == 1))
     if thorough:
         for j, quad in enumerate(itertools.combinations(range(len(classes)), 4)):
             if j % 7 == seed % 7:
